@@ -186,11 +186,15 @@ func init() {
 				p.MaxConns = 16
 				p.MinMembers = 3
 				p.PBlock = 0.35
+				p.PFocus = 0.4
 				p.BlockOps = []string{"entity_add", "entity_delete", "custom", "comp_add", "comp_delete", "comp_update", "pose", "type_add", "subscribe", "unsubscribe", "action", "asset_add", "joiner", "close", "switch", "quad_sample", "get_region", "comp_list"}
 			})
 			r := simrt.NewRand(seed, "c09")
 			if r.Bool(0.25) {
 				return componentStorm(seed, r, p)
+			}
+			if r.Bool(0.25) {
+				return duel(seed, r, p)
 			}
 			p.MinMembers = 2 + r.Intn(6)
 			sc := GenHistory(seed, p)
@@ -286,6 +290,56 @@ func runIDGenWorld(t *testing.T, seed uint64) *Result {
 // componentStorm: several members of one session update, list, add and delete the same few
 // components while another connection joins (its snapshot lists them), with the immediate
 // requests timed to arrive at a frame tick so that they overlap the flush of the updates.
+// duel: a small session in which block after block of 2-4 simultaneous requests meets on one
+// entity, one component key and one action name (the owner deletes, leaves or changes; the
+// others attach, change, read, detach): the check-then-act windows of the handlers.
+func duel(seed uint64, r *simrt.Rand, p *Profile) *Scenario {
+	g := &genState{r: r, p: p, joined: map[int]string{}, dead: map[int]bool{}, sessN: 1}
+	n := 2 + r.Intn(3)
+	for c := 0; c < n; c++ {
+		g.join(c, "S0")
+	}
+	g.nConns = n
+	add := func(st Step) { g.steps = append(g.steps, st) }
+	add(Step{Conn: 0, Op: "type_add", Name: "alpha"})
+	if r.Bool(0.5) {
+		add(Step{Conn: 1, Op: "type_add", Name: "beta"})
+	}
+	for c := 0; c < n; c++ {
+		for i := 0; i < 1+r.Intn(2); i++ {
+			add(Step{Conn: c, Op: "entity_add", Seq: float32(c*4 + i + 1), Persist: r.Bool(0.2)})
+		}
+		if r.Bool(0.5) {
+			add(Step{Conn: c, Op: "subscribe", Typ: Ref{K: "reg", I: r.Intn(2)}})
+		}
+	}
+	for round := 0; round < 2+r.Intn(4); round++ {
+		lj := g.liveJoined()
+		if len(lj) < 2 {
+			break
+		}
+		if !g.focusBlock(lj, 2+r.Intn(3)) {
+			break
+		}
+		if r.Bool(0.3) {
+			c := lj[r.Intn(len(lj))]
+			if !g.dead[c] && g.joined[c] != "" {
+				add(g.makeOp(c, []string{"entity_add", "comp_add", "action", "comp_list"}[r.Intn(4)]))
+			}
+		}
+	}
+	sc := &Scenario{Prop: "C09", Family: "history", Seed: seed, Steps: g.steps}
+	sc.World = genWorld(seed, r, p)
+	sc.World.Modules = []string{"vikja", "odal", "dagaz"}
+	sc.World.Decorators = seed%3 != 0
+	if sc.World.Policy == "seq" {
+		sc.World.Policy = "rand"
+	}
+	sc.World.Net.Jitter = 0
+	sc.World.UnlockYield = []float64{0.2, 0.5, 0.8}[r.Intn(3)]
+	return sc
+}
+
 func componentStorm(seed uint64, r *simrt.Rand, p *Profile) *Scenario {
 	g := &genState{r: r, p: p, joined: map[int]string{}, dead: map[int]bool{}, sessN: 1}
 	n := 3 + r.Intn(4)
